@@ -1025,6 +1025,19 @@ class BuiltinMixin:
                 out.append((s, r))
         return out
 
+    def m_HDict_pop(self, st, ref, args, kwargs):
+        """d.pop(key[, default]) on a dict with concrete keys"""
+        h = st.deref(ref)
+        ok, k = concrete(args[0])
+        if not ok or h.present is not None:
+            raise Unsupported("pop() with a symbolic key / symbolic dict")
+        if k in h.items:
+            v = h.items.pop(k)
+            return [(st, v)]
+        if len(args) > 1:
+            return [(st, args[1])]
+        return [self.raised(st, "KeyError", str(k))]
+
     def m_HDict_setdefault(self, st, ref, args, kwargs):
         default = args[1] if len(args) > 1 else NONE
         out = []
